@@ -5,9 +5,9 @@
 package harness
 
 import (
-	"errors"
 	"encoding/binary"
 	"encoding/json"
+	"errors"
 	"fmt"
 	"hash/fnv"
 	"os"
